@@ -2254,7 +2254,16 @@ func (data *Data) UpdateRetentionPolicy(database, name string, rpu *RetentionPol
 		checkRpi.Name = rpi.Name
 	}
 
+	oldName := rpi.Name
 	rpi.updateWithOtherRetentionPolicy(checkRpi)
+	if rpi.Name != oldName {
+		// the policies are keyed by name: a renamed policy moves to its new key
+		delete(di.RetentionPolicies, oldName)
+		di.RetentionPolicies[rpi.Name] = rpi
+		if di.DefaultRetentionPolicy == oldName {
+			di.DefaultRetentionPolicy = rpi.Name
+		}
+	}
 
 	if makeDefault {
 		di.DefaultRetentionPolicy = rpi.Name
